@@ -12,7 +12,20 @@ from harness.util import guarded, stack
 
 ID = 'C17'
 LEVEL = 'proof'
-LEVEL_TEXT = ('Unbounded Lean theorems: (1) distance criterion and packing bound for every valid [[n,k]] code (a '
+LEVEL_TEXT = ('Unbounded Lean theorems: (0) ALL SIZES of the hand-modelled surface codes '
+              '(Properties/C17<Class>.lean): Toric2DCode (Lx,Ly>=2), Planar2DCode and RotatedPlanar2DCode (Lx,Ly>=1) have '
+              'IsDistance n H (min Lx Ly), Toric3DCode and XCubeCode (Lx,Ly,Lz>=2) have IsDistance n H (min Lx Ly Lz), Planar3DCode '
+              'and RotatedPlanar3DCode (Lx,Ly,Lz>=1) have IsDistance n H (min Lx (Ly*Lz)), on the matrices assembled from the '
+              'hand-written lattice model, and code.d (min weight over the listed logicals) equals that value, for every '
+              'lattice size - upper bound: a listed logical; lower bound: packing with lattice translates (consecutive '
+              'translates of a logical line differ by the row of generators between them, consecutive translates of a logical '
+              'plane by the slab of vertex generators between them, so any operator commuting with all generators meets every '
+              'translate; X-cube: Z lines are rigid, a line is equivalent to the product of three lines through the other '
+              'corners of a rectangle of rows of cubes, which still gives min(L) disjoint representatives); (0b) DEFORMED CODES: a '
+              'per-qubit permutation of {X,Y,Z} preserves weight, commutation and span, hence IsDistance and code.d '
+              '(distance_deformation_invariant, every n, H, d); so every deformed code of these seven classes (every name/axis '
+              'get_deformation accepts) has the same distance, for every size (distance_deformed); (1) distance criterion and '
+              'packing bound for every valid [[n,k]] code (a '
               'non-trivial logical anticommutes with some listed logical, by C04; d pairwise disjoint representatives '
               'modulo the stabilizer group force weight >= d); (2) soundness of the executable certificate checker '
               'checkDistance for every packed code and certificate (packing certificates: selection masks over the '
@@ -29,8 +42,14 @@ LEVEL_NOTE = ('trusted: Lean kernel + standard axioms; translator harness/regen_
               'd*d > n so disjoint representatives cannot exist, and the enumeration below d is too large): '
               'Color666PlanarCode L=3..6 and Color666ToricCode L=2..4; Color666PlanarCode L=3 is checked natively '
               '(native_checked, thorough tier: 5.7 million pure X/Z operators below d=7). Sizes beyond the table bound and deformed codes are evaluated natively '
-              'with the same proved-sound checker (trusted in addition: Lean compiler/runtime). All-sizes (unbounded '
-              'in L) lattice theorems are not proved; instance theorems are named ..._partial.')
+              'with the same proved-sound checker (trusted in addition: Lean compiler/runtime); deformation invariance of '
+              'the distance is proved in general (distance_deformation_invariant), so for deformed codes the native '
+              'evaluation is redundant with the undeformed instance theorem. All-sizes (unbounded in L) distance '
+              'theorems exist for Toric2DCode, Planar2DCode, RotatedPlanar2DCode, Toric3DCode, Planar3DCode, '
+              'RotatedPlanar3DCode, XCubeCode only '
+              '(undeformed and deformed; trusted in addition: the correspondence harness tying the hand-written '
+              'lattice models to the classes, as in C01); the other 9 classes are covered by the bounded instance '
+              'theorems (named ..._partial).')
 TECHNIQUE = ('Lean 4 proof: certificate-checker soundness (unbounded) + kernel-checked instance theorems over tables '
              'and certificates regenerated from the source; differential correspondence of code.d; independent '
              'meet-in-the-middle / MILP search for lighter logical operators on the implementation')
@@ -44,6 +63,11 @@ RULE = ('stream 1: one `dist` op per (class, size, deformation): model distance 
         'code.d; stream 2: one `checkdistance` op per (class, size, deformation, certificate): proved-sound checker '
         'evaluated natively on live matrices, expected answer from an independent Python evaluation of the same '
         'certificate (including deliberately wrong certificates / overstated d)')
+
+# all-sizes distance theorems of the hand-modelled classes (built and axiom-audited with C17)
+ALLSIZES_CLASSES = ['Toric2DCode', 'Planar2DCode', 'RotatedPlanar2DCode', 'Toric3DCode', 'Planar3DCode',
+                    'RotatedPlanar3DCode', 'XCubeCode']
+PROPERTY_MODULES = ['PanqecVerif.Properties.C17'] + [f'PanqecVerif.Properties.C17{c}' for c in ALLSIZES_CLASSES]
 
 # instances of the regenerated tables for which no certificate is expected (see LEVEL_NOTE)
 EXPECTED_UNCERTIFIED = {
@@ -357,6 +381,18 @@ def lighter_or_equal_none(inst: D.Inst, w: int) -> bool:
     return lighter_mitm(inst, w) is None
 
 
+def class_file(cls):
+    """source file of a code class, relative to the checkout"""
+    import inspect
+    import os
+    import panqec.codes as C
+    from harness.core import REPO
+    try:
+        return os.path.relpath(inspect.getsourcefile(getattr(C, cls)), str(REPO))
+    except Exception:  # noqa
+        return None
+
+
 def oracle(ctx, deep=False, broken=None):
     rng = ctx.np_rng(171)
     cases = []
@@ -384,21 +420,56 @@ def oracle(ctx, deep=False, broken=None):
             if bigger:
                 for i in sorted(rng.choice(len(bigger), min(len(bigger), 4), replace=False)):
                     cases.append({'class': cls, 'size': list(bigger[i]), 'deform': [None, {}], 'max_w': 3, 'milp': False})
+    # classes whose own source file changed since the recorded green state: elongated lattices with
+    # pairwise different sides (where an axis mix-up in the lattice definition shows), exact search by MILP
+    focus = [cls for cls in K.CLASSES if class_file(cls) in set(getattr(ctx, 'changed_files', []) or [])]
+    for cls in focus:
+        sizes = set(map(tuple, R.instance_sizes(cls)))
+        lim = 9 if K.dimension(cls) == 2 else 7
+        cand = [x for x in K.all_sizes(cls, lim, n_max=260) if tuple(x) not in sizes and max(x) >= 5
+                and len(set(x)) == len(x)]
+        cand.sort(key=lambda x: (K.qubit_count(cls, x), x))
+        for x in cand:
+            cases.append({'class': cls, 'size': list(x), 'deform': [None, {}], 'max_w': 3, 'milp': True,
+                          'always': True, 'focus': True, 'max_logicals': 8})
     # MILP budget: spread over the cases that ask for it
     milp_cases = [c for c in cases if c.get('milp')]
     for c in milp_cases:
-        c['time_limit'] = 4.0 if deep else 2.5
+        c['time_limit'] = 3.0 if c.get('focus') else 4.0 if deep else 2.5
     fails, errs = [], 0
     t0 = time.time()
     milp_deadline = 420 if ctx.thorough else 150
     for c in sorted(cases, key=lambda c: (K.qubit_count(c['class'], tuple(c['size'])), c['class'])):
-        if c.get('milp') and time.time() - t0 > milp_deadline:
+        if c.get('focus'):
+            if time.time() - t0 > milp_deadline + 360:        # focus cases in order of size until the budget ends
+                continue
+        elif c.get('milp') and time.time() - t0 > milp_deadline:
             c['milp'] = False
         f, err = oracle_case(c, deep)
         if err:
             errs += 1
         if f is not None:
             fails.append(f)
+    # the d written to result files = the d of a fresh code of that size (same for n, k)
+    n_rec = 0
+    for cls, sizes in recorded_cases(ctx, deep):
+        try:
+            rec = recorded_d(cls, sizes)
+        except Exception as e:  # noqa
+            errs += 1
+            continue
+        for size in sizes:
+            n_rec += 1
+            code = K.build(cls, size, (None, {}))
+            want = (int(code.n), int(code.k), int(code.d))
+            got = sorted(rec.get(tuple(size), {('missing',)}))
+            if got != [want]:
+                fails.append({'input': {'class': cls, 'size': list(size), 'recorded': True,
+                                        'batch_sizes': [list(x) for x in sizes]},
+                              'observed': f'results file of a batch over sizes {sizes} records (n, k, d) = {got} for '
+                                          f'{cls}{tuple(size)}; a fresh code of that size has {want}',
+                              'match': {'class': cls, 'size': list(size), 'recorded': True}})
+                break
     # one replay per class: the smallest failing size
     seen, out = set(), []
     for f in fails:
@@ -407,12 +478,17 @@ def oracle(ctx, deep=False, broken=None):
             continue
         seen.add(k)
         out.append(f)
-    return out, {'evaluations': len(cases), 'construct_errors': errs, 'deep': bool(deep),
+    return out, {'evaluations': len(cases) + n_rec, 'recorded_d_cases': n_rec, 'construct_errors': errs, 'deep': bool(deep),
                  'milp_cases': len(milp_cases), 'seconds': round(time.time() - t0, 1)}
 
 
 def replay(ctx, payload):
     i = payload['input']
+    if i.get('recorded'):
+        sizes = [tuple(x) for x in i['batch_sizes']]
+        rec = recorded_d(i['class'], sizes)
+        code = K.build(i['class'], tuple(i['size']), (None, {}))
+        return sorted(rec.get(tuple(i['size']), {('missing',)})) != [(int(code.n), int(code.k), int(code.d))]
     try:
         inst = live(i['class'], tuple(i['size']), (i['deform'][0], i['deform'][1]))
     except Exception:  # noqa
@@ -431,6 +507,71 @@ def exhaustive_reference(inst: D.Inst) -> Optional[bool]:
     if inst.d - 1 > 4 or (inst.d - 1 >= 3 and inst.n > 110):
         return None
     return lighter_mitm(inst, inst.d - 1) is None
+
+
+
+# ---- the d written to result files (statement: "... and that is written to result files and used as the
+# scaling variable in threshold fits"): a batch of simulations whose lattice sizes are permutations of
+# each other, built in ONE process through read_input_dict, one trial each, file read back with json
+
+def recorded_cases(ctx, deep):
+    """[(cls, [sizes...])]: per class a few table sizes plus all their distinct axis permutations"""
+    import itertools as it
+    out = []
+    for cls in K.CLASSES:
+        sizes = [tuple(x) for x in R.instance_sizes(cls) if K.qubit_count(cls, x) <= (120 if deep else 60)]
+        fam = [x for x in sizes if len(set(x)) > 1]
+        fam.sort(key=lambda x: K.qubit_count(cls, x))
+        chosen, symmetric = [], []
+        for x in fam:
+            perms = [q for q in sorted(set(it.permutations(x))) if q in sizes]
+            if len(perms) < 2 or any(set(perms) <= set(c) for c in chosen + symmetric):
+                continue
+            try:
+                triples = {(int(c_.n), int(c_.k), int(c_.d)) for c_ in (K.build(cls, q, (None, {})) for q in perms)}
+            except Exception:  # noqa
+                continue
+            # families whose members differ in (n, k, d) come first: only there a mix-up between
+            # permuted sizes is visible
+            (chosen if len(triples) > 1 else symmetric).append(perms)
+            if len(chosen) >= (3 if deep else 1):
+                break
+        chosen = (chosen + symmetric)[: (3 if deep else 1)]
+        flat = [q for c in chosen for q in c]
+        if not flat and sizes:
+            flat = sizes[:2]
+        if flat:
+            out.append((cls, flat))
+    return out
+
+
+def recorded_d(cls, sizes):
+    """the (n, k, d) recorded for each size in the results file of one batch (one process, one trial each)"""
+    import json as _json
+    import os as _os
+    import tempfile
+    import contextlib
+    import io
+    from panqec.simulation import read_input_dict
+    names = ['L_x', 'L_y', 'L_z']
+    spec = {'ranges': {'label': 'c17', 'code': {'name': cls, 'parameters': [dict(zip(names, sz)) for sz in sizes]},
+                       'error_model': {'name': 'PauliErrorModel',
+                                       'parameters': [{'r_x': 0.25, 'r_y': 0.25, 'r_z': 0.5}]},
+                       'decoder': {'name': 'BeliefPropagationOSDDecoder',
+                                   'parameters': {'max_bp_iter': 2, 'osd_order': 0}},
+                       'error_rate': [0.0625]}}
+    with tempfile.TemporaryDirectory() as t, contextlib.redirect_stdout(io.StringIO()), \
+            contextlib.redirect_stderr(io.StringIO()):
+        f = _os.path.join(t, 'results.json')
+        b = read_input_dict(spec, output_file=f)
+        mem = [sim.get_results_to_save()['inputs']['code'] for sim in b._simulations]
+        b.run(1)
+        doc = _json.load(open(f))
+    out = {}
+    for rec in [d_['inputs']['code'] for d_ in doc] + mem:
+        key = tuple(rec['parameters'][a] for a in names[:len(sizes[0])])
+        out.setdefault(key, set()).add((int(rec['n']), int(rec['k']), int(rec['d'])))
+    return out
 
 
 def correspondence(ctx):
@@ -527,4 +668,23 @@ def correspondence(ctx):
                        tag='negative:overstated-d')
     s2.add('checkdistance 4 2 2 15,240 3,5 80,48 Q', 'ERR cert', {'code': 'malformed certificate'}, tag='malformed')
     s2.run()
-    return [s1, s2]
+
+    # ---- stream 3: the d / n / k written to the results file of a batch with permuted lattice sizes
+    s3 = Stream('recorded-d-in-results-file')
+    for cls, sizes in recorded_cases(ctx, ctx.thorough):
+        try:
+            rec = recorded_d(cls, sizes)
+        except Exception as e:  # noqa
+            s3.add(f'bad-op recorded {cls}', f'EXC:{type(e).__name__}:{str(e)[:80]}', {'class': cls, 'sizes': sizes},
+                   tag='construct-fail')
+            continue
+        for size in sizes:
+            code = K.build(cls, size, (None, {}))                # a freshly built code of that size
+            LX, LZ = K.dense(code.logicals_x), K.dense(code.logicals_z)
+            got = sorted(rec.get(tuple(size), {('missing',)}))
+            ans = str(got[0][2]) if len(got) == 1 and len(got[0]) == 3 else f'INCONSISTENT:{got}'
+            s3.add(f'dist {stack(LX)} {stack(LZ)}', ans,
+                   {'class': cls, 'size': list(size), 'batch_sizes': [list(x) for x in sizes],
+                    'what': 'inputs.code.d of the results file vs distance of a fresh code'}, tag=cls)
+    s3.run()
+    return [s1, s2, s3]
